@@ -10,6 +10,7 @@ from linear_operator.operators._linear_operator import IndexType, LinearOperator
 from linear_operator.operators.batch_repeat_linear_operator import BatchRepeatLinearOperator
 from linear_operator.operators.dense_linear_operator import DenseLinearOperator
 
+from linear_operator.utils.broadcasting import _matmul_broadcast_shape
 from linear_operator.utils.errors import NotPSDError
 from linear_operator.utils.memoize import cached
 
@@ -234,9 +235,12 @@ class TriangularLinearOperator(LinearOperator, _TriangularLinearOperatorBase):
             res = torch.linalg.solve_triangular(self.to_dense(), right_tensor, upper=self.upper)
         elif isinstance(tensor, BatchRepeatLinearOperator) and isinstance(base, _TriangularLinearOperatorBase):
             # (the left factor is applied once, below)
-            res = base.solve(right_tensor)
-            batch_shape = torch.broadcast_shapes(self.batch_shape, res.shape[:-2])
-            res = res.expand(*batch_shape, *res.shape[-2:])
+            # fold the repeated batch members into columns, as BatchRepeatLinearOperator._cholesky_solve does: the
+            # base factor may itself be batched along the repeated dimensions
+            output_shape = _matmul_broadcast_shape(self.shape, right_tensor.shape)
+            rhs = right_tensor.expand(*output_shape)
+            rhs = tensor._move_repeat_batches_to_columns(rhs, output_shape)
+            res = tensor._move_repeat_batches_back(base.solve(rhs), output_shape)
         elif isinstance(base, _TriangularLinearOperatorBase) and hasattr(tensor, "_add_batch_dim"):
             # block operator over triangular blocks: block-wise triangular solves
             res = tensor._solve(right_tensor)
